@@ -7,6 +7,7 @@ import (
 
 	"verifharness/internal/corpus"
 	"verifharness/internal/fw"
+	"verifharness/internal/gen"
 	"verifharness/internal/mut"
 	"verifharness/internal/run"
 	"verifharness/internal/xrand"
@@ -37,6 +38,7 @@ func init() {
 			{Name: "macros_rand", N: constN(500, 20000), Gen: c01GenMacrosRand, Eval: c01Eval},
 			{Name: "stress", N: func(tier string) int { return len(stressList(tier)) }, Gen: c01GenStress, Eval: c01Eval},
 			{Name: "options", N: constN(1500, 40000), Gen: c01GenOptions, Eval: c01Eval},
+			{Name: "models", N: constN(6000, 300000), Gen: genModelCase, Eval: c01EvalModel},
 		},
 		Floors: map[string]int64{"accepted": 500, "rejected": 5000},
 	})
@@ -516,4 +518,16 @@ func c01GenOptions(r *xrand.Rand, idx int, tier string) *fw.Case {
 		d.Files[d.Root] = mut.Mutate(r, e.Content, nil)
 	}
 	return &fw.Case{Docs: []run.Doc{d}, Note: "options on " + e.Path}
+}
+
+// c01EvalModel: generated API models (deep allOf allowed), rendered in a random style, then mutated half of the time.
+func c01EvalModel(t *fw.T, c *fw.Case) {
+	m, r := modelOf(c, gen.Options{MaxBlocks: 16, AllowAllOf: true, DeepAllOf: true})
+	rd := gen.Render(m, gen.RandomStyle(r.Fork()))
+	text := []byte(rd.Text)
+	if r.Bool() {
+		text = mut.Mutate(r, text, nil)
+	}
+	c.Docs = []run.Doc{run.Single(text)}
+	c01Eval(t, c)
 }
